@@ -531,3 +531,7 @@ def register(M):
       "        if default_state:\n            self._global_state.update(default_state)\n        self._inline_state = {}",
       "        if default_state:\n            for k, v in self._global_state.items():\n                default_state.setdefault(k, v)\n            self._global_state = default_state\n        self._inline_state = {}",
       'a non-empty default option dict is adopted as the run state (directives leak to every doctest sharing it)')
+    M('C09_F16', ['C09'], 'checker.py',
+      "            elif got:\n                # The want can normalize to nothing (e.g. it only consists of\n                # a <BLANKLINE> marker) while something was printed.\n",
+      "            elif got:\n                raise AssertionError('impossible state')\n",
+      'reverse of fix F16 (a want that normalizes to nothing makes the report raise)')
